@@ -26,8 +26,11 @@ ASSUMPTIONS = ["no leading blanks and no backslashes in pointer text (the statem
 ALPHABET = ["a", "~", "/", "0", "1", "01", "+1", "-1", "-", " ", " 1", "#", "#a", "", "é", "１", "1_0", "10", "~1", "\U0001f600"]
 
 
+PCT_TOKENS = ["c%d", "%25", "%41", "caf%C3%A9", "100%25", "a%2Fb", "%7E", "%", "%zz", "a"]
+
+
 def plan(tier, seed):
-    specs = [{"kind": "exhaustive", "first": t} for t in ALPHABET]
+    specs = [{"kind": "history"}] + [{"kind": "exhaustive", "first": t} for t in ALPHABET]
     specs.append({"kind": "exhaustive", "first": None})
     for _ in range(4 if tier == "quick" else 12):
         specs.append({"kind": "chains", "n": 1500 if tier == "quick" else 60000})
@@ -196,6 +199,31 @@ def neighbours(tokens):
 
 def run(spec, ctx):
     r = ctx.rng
+    if spec["kind"] == "history":
+        # the same pointer text read earlier under another decoding must not influence later reads
+        import jsonpath
+        from jsonpath import JSONPointer
+
+        n = 0
+        seqs = [(a,) for a in PCT_TOKENS] + [(a, b) for a in PCT_TOKENS for b in PCT_TOKENS]
+        for toks in seqs:
+            text = rp.encode(toks)
+            for poison in ("uri", "patch-uri", "noescape", "none"):
+                try:
+                    if poison == "uri":
+                        JSONPointer(text, uri_decode=True)
+                    elif poison == "patch-uri":
+                        jsonpath.JSONPatch(uri_decode=True).test(text, 1)
+                    elif poison == "noescape":
+                        JSONPointer(text, unicode_escape=False, uri_decode=True)
+                except Exception:  # noqa: BLE001
+                    pass
+                for ue in (True, False):
+                    check_sequence(ctx, toks, ue)
+                    n += 1
+        ctx.bulk(n)
+        ctx.count("history_sequences", n)
+        return
     if spec["kind"] == "exhaustive":
         if spec["first"] is None:
             seqs = [()]
